@@ -1,6 +1,7 @@
 package c03
 
 import (
+	"strings"
 	"testing"
 
 	"github.com/tdewolff/parse/v2"
@@ -86,5 +87,27 @@ func TestKnown_BlockFunctionAndImportBindings(t *testing.T) {
 		ev.ReportKnown("C03", "K-C03-2", "\"import {a} from 'x'; let a\" is accepted: import bindings are not declared in the module scope")
 	} else if bad2 {
 		t.Errorf("\"import {a} from 'x'; let a\" is accepted")
+	}
+}
+
+// braces nested in one template substitution, and templates nested in substitutions, at depths next to 64 (the width of a
+// machine word) and beyond: all below the parser's own limit of 1000, all accepted
+func TestRegress_DeepSubstitutions(t *testing.T) {
+	for _, d := range []int{1, 31, 32, 33, 63, 64, 65, 100, 200} {
+		for _, src := range []string{
+			"x = `<${" + strings.Repeat("{a:", d) + "1" + strings.Repeat("}", d) + "}>`",
+			"x = `<${function(){" + strings.Repeat("function f(){", d) + strings.Repeat("}", d) + "}}>`",
+			"x = " + strings.Repeat("`${", d) + "y" + strings.Repeat("}`", d),
+			"x = `${" + strings.Repeat("{a:`${", d) + "y" + strings.Repeat("}`}", d) + "}`",
+		} {
+			if d > 100 && strings.Contains(src, "function") {
+				continue // two levels of nesting per function: beyond the parser's limit
+			}
+			for _, o := range []js.Options{{}, {Inline: true}, {WhileToFor: true}} {
+				if _, err := js.Parse(parse.NewInputString(src), o); err != nil {
+					t.Errorf("depth %d, %+v: %.60q... rejected: %v", d, o, src, err)
+				}
+			}
+		}
 	}
 }
